@@ -442,12 +442,42 @@ func (g *amGen) fieldType(depth int, owner string, profile string) *amType {
 				g.tag("ref:self")
 			}
 			t := &amType{K: "ref", Ref: name, MinLen: -1, MaxLen: -1}
+			if g.caps.Defaults && g.caps.StructDefaults && g.rng.Chance(0.5) {
+				// CUE: `#Mode & (*"b" | _)` and `#Struct | *{…}`
+				for _, q := range g.plan {
+					if q.name != name {
+						continue
+					}
+					if o := g.s.obj(name); o != nil && q.kind == "enumS" && len(o.T.EnumS) > 0 {
+						t.Default = o.T.EnumS[g.rng.Intn(len(o.T.EnumS))]
+						g.tag("default:enum-ref")
+					}
+				}
+			}
 			return t
 		}
 		return g.scalar(profile)
 	case r < 68:
 		g.tag("array")
-		return &amType{K: "array", Elem: g.elemType(depth, owner, profile), MinLen: -1, MaxLen: -1}
+		at := &amType{K: "array", Elem: g.elemType(depth, owner, profile), MinLen: -1, MaxLen: -1}
+		if g.caps.Defaults && profile == "defaults" && at.Elem.Default == nil && g.rng.Chance(0.5) {
+			switch at.Elem.K {
+			case "string":
+				if at.Elem.MinLen <= 1 && (at.Elem.MaxLen < 0 || at.Elem.MaxLen >= 2) {
+					at.Default = []any{"a", "bc"}
+					g.tag("default:list-of-strings")
+				}
+			case "int":
+				if at.Elem.Lo == nil && at.Elem.Hi == nil {
+					at.Default = []any{num(1), num(2)}
+					g.tag("default:list-of-ints")
+				}
+			case "bool":
+				at.Default = []any{true, false}
+				g.tag("default:list-of-bools")
+			}
+		}
+		return at
 	case r < 77:
 		if g.caps.Maps {
 			g.tag("map")
